@@ -289,3 +289,19 @@ theorem L2_marginals_product (a : ℕ → ℕ → ℝ) (n0 n1 : ℕ) :
   ⟨Finset.sum_product' _ _ _, Finset.sum_product_right' _ _ _⟩
 
 end PyvcLemmas
+
+namespace PyvcLemmas
+
+/-- L4_sum_prefix_mono: prefix sums of an array that is non-negative on `[0, j)` are non-decreasing. -/
+theorem L4_sum_prefix_mono (A : ℕ → ℝ) (n j : ℕ) (hnj : n ≤ j) (hpos : ∀ i < j, 0 ≤ A i) :
+    SUM A n ≤ SUM A j := by
+  unfold SUM
+  apply Finset.sum_le_sum_of_subset_of_nonneg
+  · intro x hx
+    simp only [Finset.mem_range] at hx ⊢
+    omega
+  · intro i hi _
+    simp only [Finset.mem_range] at hi
+    exact hpos i hi
+
+end PyvcLemmas
